@@ -380,7 +380,7 @@ Section TrainLoop.
   Proof.
     intros s2 s3 Ha Hmu. pose proof Ha as (Hgd & Hp & Hnd).
     destruct (armed_gd_pre s2 Ha) as [HndU Hpre].
-    destruct (model_update_spec O s2 HndU Hpre)
+    destruct (model_update_spec O s2 Hpre)
       as (s2u & out & Hup & Hpost & Hmu' & Hparams & Hlenl & _).
     rewrite Hmu in Hmu'. injection Hmu' as Hs3.
     pose proof Hpost as ((P1 & P2 & P3 & P4 & P5 & P6) & Hlen & Hlen' & Hfro & Hunf & Hclr & Hoth).
